@@ -43,6 +43,8 @@ def _wrap(c):
         V = {"gcp_view_cropped": Affine.translation(3, 2), "gcp_view_zoomed": Affine.translation(1, 2) * Affine.scale(0.5, 2)}.get(c["base"]["name"], Affine.identity())
         base = A * ~V
         pix = np.array([[0, 0], [8, 0], [8, 6], [0, 6], [3, 2], [5, 5], [2, 4]], dtype="float64")
+        if c["base"]["name"] == "gcp_subpixel":
+            pix = pix + np.array([0.5, 0.25])
         wld = np.array([base * tuple(p) for p in pix])
         gbox = GCPGeoBox((h, w), GCPMapping(pix, wld, crs), V)
     else:
@@ -169,6 +171,9 @@ def run_repr(c):
                 xx = xx.chunk({d: 5 for d in xx.dims})
             xx.attrs["crs"] = scrs
         obj = xx if c["container"] == "DataArray" else xr.Dataset({"a": xx, "b": xx * 2, "plain": xr.DataArray([1, 2, 3])})
+        if not isinstance(obj, xr.DataArray):
+            # the undecoded-CF / datacube layout: the Dataset itself names its CRS in its attributes
+            obj.attrs.update({"crs": scrs, "grid_mapping": cname, "title": "t"})
         dcrs = f"epsg:{c['dst']}"
         if c["how"] == "geobox":
             dst = GeoBox.from_bbox(src.footprint(dcrs).boundingbox, dcrs, shape=(9, 11))
@@ -209,7 +214,9 @@ def run_repr(c):
             if not _approx_eq(da.odc.geobox, dst):
                 ev["vars_ok"] = False
         if not isinstance(out, xr.DataArray):
-            if "crs" in out.attrs or not bool((out["plain"] == obj["plain"]).all()):
+            if "crs" in out.attrs or "grid_mapping" in out.attrs:
+                stale = True
+            if not bool((out["plain"] == obj["plain"]).all()):
                 ev["vars_ok"] = False
         ev["no_stale"] = not stale
     except Exception as ex:  # noqa: BLE001
